@@ -238,6 +238,71 @@ def registered_later(v: int) -> bool:
                     setattr(statuses, name, t)
 
 
+@cond(bounds='the statuses the service users hand to their callers: C-MOVE user, C-FIND user, C-GET user (one instance each) '
+             'against scripted responses: k = 0..2 pending responses, then a response whose status is a symbolic 16-bit '
+             'code, then a stray response: every yielded status is classified as PS3.4 classifies that code FOR THAT '
+             'SERVICE, and the iteration ends with the first response whose status is not pending for that service',
+      family={'svc': ['move', 'find', 'get']}, timeout=240)
+def user_side_classification(k: int, v: int) -> bool:
+    """
+    pre: 0 <= k <= 2 and 0 <= v <= 65535
+    post: _
+    """
+    import pydicom
+    from vt.api import pick
+    from vt.harness.svc import RecAssoc
+    from pynetdicom2 import sopclass, asceprovider
+    _STATE.restore()
+    k = pick(k, 0, 2)
+    svc = fam('svc')
+    cls, cf, sop = {'move': (dm.CMoveRSPMessage, 0x8021, sopclass.PATIENT_ROOT_MOVE_SOP_CLASS),
+                    'find': (dm.CFindRSPMessage, 0x8020, sopclass.PATIENT_ROOT_FIND_SOP_CLASS),
+                    'get': (dm.CGetRSPMessage, 0x8010, sopclass.PATIENT_ROOT_GET_SOP_CLASS)}[svc]
+
+    def rsp(status):
+        m = cls()
+        m.message_id_being_responded_to = 5
+        m.sop_class_uid = sop
+        m.status = status
+        return (m, 1)
+    script = [rsp(0xFF00) for _ in range(k)] + [rsp(v), rsp(0x0000), rsp(0x0000)]
+
+    class StubAE(object):
+        store_in_file = set()
+        context_def_list = {}
+        local_ae = {'aet': 'ME'}
+    asce = RecAssoc(StubAE(), script=script)
+    ctx = asceprovider.PContextDef(1, pydicom.uid.UID(str(sop)), pydicom.uid.ImplicitVRLittleEndian)
+    q = pydicom.Dataset()
+    q.QueryRetrieveLevel = 'STUDY'
+    if svc == 'move':
+        it = sopclass.qr_move_scu(asce, ctx, q, 'DEST', 5)
+    elif svc == 'find':
+        it = sopclass.qr_find_scu(asce, ctx, q, 5)
+    else:
+        it = sopclass.qr_get_scu(asce, ctx, q, 5)
+    got = []
+    n = 0
+    for item in it:
+        st = item[0] if svc == 'move' else item[1]
+        if hasattr(st, 'status_type'):
+            got.append(st)
+        n += 1
+        if n > 6:
+            break
+    v_pending = 'Pending' in ref.allowed_classes(cf, v)
+    # responses consumed: the k pending ones, the one with status v, and - only if v is pending for this service - one more
+    want_read = k + 1 + (1 if v_pending else 0)
+    ok = asce.received == want_read
+    codes = [0xFF00] * k + [v] + ([0] if v_pending else [])
+    if svc != 'get':
+        ok = ok and len(got) == len(codes)
+        for st, code in zip(got, codes):
+            ok = ok and st.status_type in ref.allowed_classes(cf, code) and (st.__int__() == code if not api.REPLAY else int(st) == code)
+    deep(ok and v == 0xB000)
+    return ok
+
+
 def _replay_snapshot():
     return dict((name, (v, dict((k, dict(x) if isinstance(x, dict) else x) for k, x in v.items())))
                 for name, v in vars(statuses).items() if type(v) is dict and not name.startswith('__'))
